@@ -233,7 +233,7 @@ def check_c07(prop, tier, seed):
         for t, o in res.prints:
             if t == 'SCENARIO':
                 k = json.dumps(o)
-                if k not in seen and sum(1 for x in o if x['op'] == 'tx') >= 2 and any(x['op'] == 'fault' for x in o):
+                if k not in seen and sum(1 for x in o if x['op'] in ('tx', 'tx_abandon')) >= 2 and any(x['op'] == 'fault' for x in o):
                     seen.add(k)
                     scen.append({'steps': o, 'servers': servers})
     rng.shuffle(scen)
@@ -242,7 +242,28 @@ def check_c07(prop, tier, seed):
         ops = [x['op'] for x in s['steps']]
         return ops.count('tx') + 2 * len({x['a'] for x in s['steps'] if x['op'] == 'fault'}) + ('ban' in ops) + ('unban' in ops) + ('tick' in ops)
     scen.sort(key=lambda s: -score(s))
-    chosen = scen[:n]
+
+    def special(s2):
+        # rare interplays get a quota: a server that fails while a transaction is in flight on it; a transaction abandoned
+        # by its client on a server that dies under statements
+        st = s2['steps']
+        out = set()
+        for i, x in enumerate(st):
+            if x['op'] == 'hold':
+                for j in range(i + 1, len(st)):
+                    if st[j]['op'] == 'fault' and st[j]['s'] == x['s'] and st[j]['a'] in ('refuse', 'hang', 'startup_error') and \
+                            any(y['op'] == 'tx' for y in st[j + 1:]):
+                        out.add('fails_while_busy')
+            if x['op'] == 'fault' and x['a'] == 'dies_under_statement' and any(y['op'] == 'tx_abandon' for y in st[i + 1:]):
+                out.add('abandoned_on_dying')
+            if x['op'] == 'fault' and x['a'] == 'startup_error' and any(y['op'] == 'fault' and y['s'] == x['s'] and y['a'] == 'up'
+                                                                       for y in st[i + 1:]):
+                out.add('startup_error_then_back')
+        return out
+    chosen = []
+    for kind in ('fails_while_busy', 'abandoned_on_dying', 'startup_error_then_back'):
+        chosen += [s2 for s2 in scen if kind in special(s2) and s2 not in chosen][:max(6, n // 8)]
+    chosen += [s2 for s2 in scen if s2 not in chosen][:n - len(chosen)]
     v.extra['scenarios_generated'] = len(scen)
     items = [{'id': j + 1, 'steps': s['steps'], 'servers': s['servers'], 'seed': seed * 29 + j, 'lb': 'loc' if j % 4 == 3 else 'random'}
              for j, s in enumerate(chosen)]
